@@ -220,3 +220,33 @@ Theorem C12_source_statement_targets : forall S B, is_uns S = true -> is_uns B =
   map eff_target (src_it_add S B) = ["ptr+="; "index="] /\ map eff_target (src_it_diff S B) = ["return"].
 Proof. exact src_it_targets. Qed.
 Print Assumptions C12_source_statement_targets.
+
+(* operator++ (with its SBEPP_SIZE_CHECK, as clang expands it) and operator-- *)
+Theorem C12_source_increment_exact : forall S B it,
+  is_uns S = true -> is_uns B = true ->
+  0 < i_ptr it < 2 ^ 63 -> 0 <= i_end it < 2 ^ 63 ->
+  in_range B (i_bl it) = true -> in_range S (i_idx it) = true -> in_range S (i_idx it + 1) = true ->
+  effs_eval [("ptr", i_ptr it); ("end", i_end it); ("block_length", i_bl it); ("index", i_idx it)] (src_it_inc S B)
+  = if (i_ptr it + i_bl it <=? i_end it)%Z then Some [1; i_bl it; i_idx it + 1] else Some [0].
+Proof. exact src_it_inc_exact. Qed.
+Print Assumptions C12_source_increment_exact.
+
+Theorem C12_source_increment_is_the_model : forall S B it,
+  is_uns S = true -> is_uns B = true ->
+  0 < i_ptr it < 2 ^ 63 -> 0 <= i_end it < 2 ^ 63 ->
+  in_range B (i_bl it) = true -> in_range S (i_idx it) = true ->
+  effs_eval [("ptr", i_ptr it); ("end", i_end it); ("block_length", i_bl it); ("index", i_idx it)] (src_it_inc S B)
+  = match it_inc true S B it with
+    | GOk it' => Some [1; i_bl it; i_idx it']
+    | GAssert => Some [0]
+    | GUB => None
+    end.
+Proof. exact src_it_inc_is_model. Qed.
+Print Assumptions C12_source_increment_is_the_model.
+
+Theorem C12_source_decrement_is_the_model : forall S B it,
+  is_uns S = true -> is_uns B = true -> in_range B (i_bl it) = true -> in_range S (i_idx it) = true ->
+  effs_eval [("block_length", i_bl it); ("index", i_idx it)] (src_it_dec S B)
+  = match it_dec S B it with GOk it' => Some [i_bl it; i_idx it'] | _ => None end.
+Proof. exact src_it_dec_is_model. Qed.
+Print Assumptions C12_source_decrement_is_the_model.
